@@ -152,6 +152,19 @@ def run_pair(case):
             ('=SUM((%s):(%s))' % (na, nb), N(sum(R.val(*c) for c in R.cells(bb)))),
             ('=COUNT((%s):(%s))' % (na, nb), N(len(R.cells(bb)))),
         ]
+        # two reference expressions in ONE formula that may resolve to the same area: each must see its own cells
+        su = lambda cs: sum(R.val(*c) for c in cs)
+        tests += [
+            ('=SUM((%s,%s))*1000+SUM((%s,%s))' % (na, nb, nb, na), N(1001 * (su(sa) + su(sb)))),
+            ('=SUM(%s)*1000+SUM((%s,%s))' % (nb, na, nb), N(1000 * su(sb) + su(sa) + su(sb))),
+            ('=SUM((%s):(%s))*1000+COUNT((%s,%s))' % (na, nb, nb, na), N(1000 * su(R.cells(bb)) + len(sa) + len(sb))),
+        ]
+        if i:
+            tests += [
+                ('=SUM(%s %s)*1000+SUM((%s,%s))' % (na, nb, na, nb), N(1000 * su(sa & sb) + su(sa) + su(sb))),
+                ('=SUM((%s,%s))*1000+SUM(%s %s)' % (nb, R.name(i), na, nb), N(1000 * (su(sb) + su(sa & sb)) + su(sa & sb))),
+                ('=SUM(%s)*1000+SUM(%s %s)' % (R.name(i), nb, na), N(1001 * su(sa & sb))),
+            ]
         for f, exp in tests:
             if exp is None:
                 continue
@@ -163,7 +176,7 @@ def run_pair(case):
         guard(cls, fn)
     if n == 4 or (ia + ib) % 3 == 0:
         guard('formula', t_formulas)
-        ex += 5
+        ex += 11
     return result(ex, ['pair:' + rel + (':fail' if fails else '')], fails)
 
 
@@ -204,7 +217,22 @@ def run_triple(case):
                 bad('and-value', sorted(np.ravel(v).tolist()), exp)
     except Exception as e:
         bad('sub-exc', type(e).__name__, 'no exception')
-    ex = 6
+    # the range operator with a multi-area operand on either side: bounding rectangle of all areas
+    try:
+        bb3 = R.bbox(R.bbox(a, b), c)
+        for label, rs in (('(a,b):c', (A | B) + C), ('c:(a,b)', C + (A | B))):
+            if cells_of(rs) != collections.Counter(R.cells(bb3)):
+                bad('colon', '%s -> %s' % (label, rs), R.name(bb3))
+    except Exception as e:
+        bad('colon-exc', type(e).__name__, 'no exception')
+    ex = 8
+    if (ia * 31 + ib * 7 + ic) % 9 == 0:
+        ex += 2
+        for f in ('=SUM((%s,%s):(%s))' % (R.name(a), R.name(b), R.name(c)), '=SUM((%s):(%s,%s))' % (R.name(c), R.name(a), R.name(b))):
+            got = eval_on_grid(f)
+            want = N(sum(R.val(*x) for x in R.cells(bb3)))
+            if got != want:
+                bad('formula', '%s -> %s' % (f, got), want)
     if (ia * 31 + ib * 7 + ic) % 9 == 0 and (sa & sc or sb & sc):
         ex += 1
         f = '=SUM((%s,%s) %s)' % (R.name(a), R.name(b), R.name(c))
